@@ -10,6 +10,25 @@ import (
 // C04 (lexer stage): Lex on an ARBITRARY byte buffer (every byte symbolic, valid and invalid UTF-8)
 // returns tokens or an error; it never panics (a panic is a path outcome the interpreter reports)
 // and terminates within the unwinding bound.
+// HarnessC04LexEscape: a quoted literal whose body is a backslash followed by n symbolic bytes (every escape letter,
+// complete and truncated hex/unicode/octal escapes, directly before the closing quote or not, terminated or not).
+func HarnessC04LexEscape() {
+	n := vfParamInt("n")
+	q := "\""
+	if vfBool("single-quote") {
+		q = "'"
+	}
+	buf := q + "\\" + vfBytes("esc", n)
+	if vfBool("terminated") {
+		buf += q
+	}
+	tokens, err := Lex(file.NewSource(buf))
+	vfReach("c04.lexescape.returned")
+	if err != nil {
+		vfAssert(tokens == nil, "c04.lex.error-means-no-tokens")
+	}
+}
+
 func HarnessC04Lex() {
 	n := vfParamInt("n")
 	buf := vfBytes("buf", n)
@@ -113,7 +132,7 @@ func HarnessC12String() {
 // C12 / C13 positions: tokens laid out with arbitrary (symbolic) whitespace and line breaks and multi-byte
 // characters; every token's Location must be (1 + newlines before its first character, runes since the last newline).
 
-var vfTokenSpellings = []string{"a", "+", "12", "'s'", "not in", "..", "?.", "é1", "==", "(", "1.5", "\"é\""}
+var vfTokenSpellings = []string{"a", "+", "12", "'s'", "not in", "..", "?.", "é1", "==", "(", "1.5", "\"é\"", "not", "inx", "in", "index"}
 
 func HarnessC12Positions() {
 	k := vfParamInt("k")
